@@ -291,6 +291,17 @@ fn split_host_port(value: &str, default_port: u16) -> Result<(String, u16)> {
         }
         let host_part = &value[..idx];
         let port_part = &value[idx + 1..];
+        if port_part.is_empty() {
+            // "host:" -- an empty port means the default port (RFC 3986 section 3.2.3)
+            return Ok((
+                host_part
+                    .trim()
+                    .trim_matches('[')
+                    .trim_matches(']')
+                    .to_string(),
+                default_port,
+            ));
+        }
         if let Ok(port) = port_part.parse::<u16>() {
             return Ok((
                 host_part
